@@ -475,6 +475,9 @@ func (fr *Frame) applySpecClosure(spec *FuncSpec, key string, sig *types.Signatu
 		env.vars["result"] = res[0]
 	}
 	for _, cl := range spec.Ensures {
+		if strings.HasPrefix(cl.Label, "local-") && !spec.Assume {
+			continue // `ensures [local-...]`: proved against the body, not re-assumed at call sites (keeps the callers' VCs small)
+		}
 		t, err := env.evalBool(cl.E)
 		if err != nil {
 			fc.eng.stale(spec, cl, err)
@@ -506,6 +509,9 @@ func (fr *Frame) applySpecClosure(spec *FuncSpec, key string, sig *types.Signatu
 			name := "pf_" + mangle(key)
 			fc.eng.declareUF(fc, name, sorts, fc.tc.sortOf(res[0].typ))
 			fc.assume(g, eq(res[0].t, app(name, ts...)))
+		} else if t, ok := fc.pureHeapTerm(key, st, args, res[0].typ); ok {
+			// pure-heap rule (pureheap.go): the result is the value the spec term `f(args)` denotes in this state
+			fc.assume(g, eq(res[0].t, t))
 		}
 	}
 	return res
@@ -597,6 +603,7 @@ func (fr *Frame) builtin(in ssa.Instruction, b *ssa.Builtin, c *ssa.CallCommon, 
 		case *types.Map:
 			l := fc.define(fr.prefix+"maplen", "Int", ite(eq(a.t, nilPtr), "0", app("select", fc.comp(st, "ML", "(Array Ptr Int)"), a.t)))
 			fc.assume("true", app(">=", l, "0"))
+			fc.mapLenWitness(st, u, a.t, l) // len(m) > 0 ==> m has some key (ext_c34.go)
 			return []SV{{t: l, typ: intT}}
 		}
 		fc.unsupported("len of " + c.Args[0].Type().String())
@@ -707,6 +714,12 @@ func (fr *Frame) appendBuiltin(c *ssa.CallCommon, args []SV, st *State, g string
 		}
 		fc.emit(fmt.Sprintf("(assert (forall ((k Int)) (! (=> (and (<= 0 k) (< k %s)) (= (select %s %s) %s)) :pattern ((select %s %s)))))",
 			addLen, nb, idx(ro, "(+ "+slen(s.t)+" k)"), moreAt, nb, idx(ro, "(+ "+slen(s.t)+" k)")))
+		if tc.sortOf(more.typ) != "Str" {
+			// the same fact in absolute-index form (a = len(s) + k), so that a read of the new block at ANY index term triggers it
+			// (the pattern above only matches index terms of the syntactic form len(s) + k)
+			fc.emit(fmt.Sprintf("(assert (forall ((a Int)) (! (=> (and (<= %s a) (< a (+ %s %s))) (= (select %s %s) (select (select %s %s) %s))) :pattern ((select %s %s)))))",
+				slen(s.t), slen(s.t), addLen, nb, idx(ro, "a"), heap, sarr(more.t), idx(soff(more.t), "(- a "+slen(s.t)+")"), nb, idx(ro, "a")))
+		}
 		// the common one-element case gets a ground instance
 		fc.emit(fmt.Sprintf("(assert (=> (= %s 1) (= (select %s %s) %s)))", addLen, nb, idx(ro, slen(s.t)), strings.ReplaceAll(moreAt, " k)", " 0)")))
 	}
